@@ -31,7 +31,7 @@ RULE = (
     "function, method of a nested class, method, function inside a function, function two functions deep, "
     "decorated function, a method and a nested function sharing their bare names with module-level functions, a "
     "closure referring to itself, closures whose only instance is created by the history (factory at module "
-    "level / a method / itself a closure), a function under two stacked decorators) x history (<=15 quick / <=40 thorough ops) of {activate probe by name | by reference, "
+    "level / a method / itself a closure), a function under two stacked decorators) x history (<=15 quick / <=40 thorough ops, plus in a quarter of the cases an inserted burst `two probes on one target at once, then a call`) of {activate probe by name | by reference, "
     "activate a path probe in which the target is only the enclosing call, deactivate innermost, call, resolve "
     "reference, create the lazy closure instance, execute the unchanged module again (only while no probe is active)} x codefind lookup regime (gc scan / cache). evaluations = "
     "operations applied. Non-trivial = a resolve or an activation by reference happens while >=1 other probe on "
@@ -224,9 +224,12 @@ def build_module(order, ks):
     # cache by code object: give every generated module its own line offsets so that two cases
     # in one process never produce equal code objects (that would be a statement about
     # codefind, not about ptera)
-    text = "\n" * (64 * _N[0]) + HEADER
+    # (the stride must exceed the longest module text - 140 lines with every block - or two
+    # functions of consecutive modules can land on the same line after all)
+    text = "\n" * (192 * _N[0]) + HEADER
     for b in order:
         text += BLOCKS[b].format(K=ks["ctop"] if b == "coll" else ks[b], K2=ks["hdec"] if b == "coll" else ks["om"])
+    assert text.count("\n") - 192 * _N[0] < 192, "module text longer than the line stride"
     path = os.path.join(_pkgdir(), name + ".py")
     with open(path, "w") as f:
         f.write(text)
@@ -547,10 +550,18 @@ def strategy(max_ops):
             st.lists(tgt, min_size=1, max_size=2),
             st.sampled_from([["inner", "maker"], ["leaf", "deep"], ["meth", "om"], ["leaf", "deep", "maker"],
                              ["top", "ctop"], ["dec", "hdec"], ["rfun"], ["lfun", "lmaker"], ["lfun", "lmaker", "lfun"], ["lfun2", "lmake2"], ["lfun3", "lmk3"], ["lfun4", "lmk4"], ["dec2"],
-                             ["dec2", "dec"]]),
+                             ["dec2", "dec"], ["dec"], ["dec2"], ["hdec"]]),
         ))
         ops = draw(st.lists(op, min_size=3, max_size=max_ops))
         ops = [(o[0], focus[hash(o) % len(focus)], *o[2:]) if len(o) > 1 and o[0] != "make" and draw(st.integers(0, 2)) else o for o in ops]
+        if draw(st.integers(0, 3)) == 0:
+            # a burst that is rare by chance: two probes on one target at the same time, the second
+            # one made by name (or by reference), then a call
+            bt = draw(st.sampled_from(focus))
+            burst = [("act", bt, draw(st.sampled_from(["name", "ref"]))), ("act", bt, draw(st.sampled_from(["name", "name", "ref"]))),
+                     ("call", bt, draw(st.integers(0, 9)))]
+            at = draw(st.integers(0, len(ops)))
+            ops = ops[:at] + burst + ops[at:]
         regime = draw(st.sampled_from(["scan", "cache"]))
         return order, ks, ops, regime
 
